@@ -118,10 +118,11 @@ T4 = N_(0, 1, 2, 3, 4)
 T3 = N_(0, 1, 2, 3)
 for sh, K, V in (("u8", "u8", "u8"), ("id", "Key", "u8")):
     S = "S_" + sh
-    WIDE = N_(9) if sh == "u8" else []  # thorough only: one capacity beyond every 4x/8x unrolling threshold
-    add("c01_get_" + sh, "c01::h_get::<%s, %s, {N}>()" % (K, V), ["C01", "C06"], Q3 + WIDE, T4 + WIDE,
+    WIDE = N_(9) if sh == "u8" else []  # one capacity beyond every 4x/8x unrolling threshold (quick: S_u8 only)
+    WIDET = N_(9)                        # thorough: both shapes
+    add("c01_get_" + sh, "c01::h_get::<%s, %s, {N}>()" % (K, V), ["C01", "C06"], Q3 + WIDE, T4 + WIDET,
         fn="Map::get, contains_key, get_key_value", shape=S)
-    add("c01_get_mut_" + sh, "c01::h_get_mut::<%s, %s, {N}>()" % (K, V), ["C01", "C05", "C06"], Q3 + WIDE, T4 + WIDE,
+    add("c01_get_mut_" + sh, "c01::h_get_mut::<%s, %s, {N}>()" % (K, V), ["C01", "C05", "C06"], Q3 + WIDE, T4 + WIDET,
         fn="Map::get_mut", shape=S)
     add("c01_index_" + sh, "c01::h_index::<%s, %s, {N}>()" % (K, V), ["C01", "C06"], N_(1, 2), N_(1, 2, 3, 4),
         fn="Index::index, IndexMut::index_mut (key present)", shape=S)
@@ -132,10 +133,10 @@ for sh, K, V in (("u8", "u8", "u8"), ("id", "Key", "u8")):
     for w, nm, f in ((0, "insert", "Map::insert"), (1, "insert_key_value", "Map::insert_key_value"),
                      (2, "checked_insert", "Map::checked_insert")):
         add("c01_%s_%s" % (nm, sh), "c01::h_insert::<%s, %s, {N}>(%d)" % (K, V, w), ["C01", "C05", "C12"] + (["C03"] if w == 2 else []),
-            (Q3 if w == 2 else N_(1, 2)) + WIDE, (T4 if w == 2 else N_(1, 2, 3, 4)) + WIDE, profile="both", fn=f, shape=S)
+            (Q3 if w == 2 else N_(1, 2)) + WIDE, (T4 if w == 2 else N_(1, 2, 3, 4)) + WIDET, profile="both", fn=f, shape=S)
     for w, nm in ((0, "remove"), (1, "remove_entry"), (2, "remove_borrowed"), (3, "remove_entry_borrowed")):
         add("c01_%s_%s" % (nm, sh), "c01::h_remove::<%s, %s, {N}>(%d)" % (K, V, w), ["C01", "C05"] + (["C12"] if w in (1, 3) else []),
-            (Q3 + WIDE) if w < 2 else N_(2), (T4 + WIDE) if w < 2 else N_(3), fn="Map::" + nm.replace("_borrowed", ""), shape=S)
+            (Q3 + WIDE) if w < 2 else N_(2), (T4 + WIDET) if w < 2 else N_(3), fn="Map::" + nm.replace("_borrowed", ""), shape=S)
     add("c01_retain_" + sh, "c01::h_retain::<%s, %s, {N}>()" % (K, V), ["C01", "C05"], Q3, T3, unwind="N+2",
         fn="Map::retain", shape=S)
     add("c01_clear_" + sh, "c01::h_clear::<%s, %s, {N}>()" % (K, V), ["C01", "C05"], Q3, T4, fn="Map::clear", shape=S)
@@ -200,12 +201,12 @@ add("c03_checked_full_tok", "c03::h_checked_full_tok::<{N}>()", ["C03", "C02"], 
 for sh, T in (("u8", "u8"), ("id", "Key")):
     S = "S_" + sh
     W9 = N_(9) if sh == "u8" else []  # one capacity beyond every 4x/8x unrolling threshold
-    add("c07_insert_" + sh, "c07::h_set_insert::<%s, {N}>(0)" % T, ["C07", "C12", "C05"], N_(1, 2) + W9, N_(1, 2, 3, 4) + W9, profile="both", fn="Set::insert", shape=S)
+    add("c07_insert_" + sh, "c07::h_set_insert::<%s, {N}>(0)" % T, ["C07", "C12", "C05"], N_(1, 2) + W9, N_(1, 2, 3, 4) + N_(9), profile="both", fn="Set::insert", shape=S)
     add("c07_replace_" + sh, "c07::h_set_insert::<%s, {N}>(1)" % T, ["C07", "C12", "C05"], N_(1, 2), N_(1, 2, 3, 4), fn="Set::replace", shape=S)
-    add("c07_lookup_" + sh, "c07::h_set_lookup::<%s, {N}>()" % T, ["C07", "C12", "C06"], Q3 + W9, T4 + W9, fn="Set::contains, Set::get", shape=S)
+    add("c07_lookup_" + sh, "c07::h_set_lookup::<%s, {N}>()" % T, ["C07", "C12", "C06"], Q3 + W9, T4 + N_(9), fn="Set::contains, Set::get", shape=S)
     for i, op in enumerate(("remove", "take", "remove_borrowed", "take_borrowed")):
         add("c07_%s_%s" % (op, sh), "c07::h_set_remove::<%s, {N}>(%d)" % (T, i), ["C07", "C05"] + (["C12"] if "take" in op else []),
-            (Q3 + W9) if i < 2 else N_(2), (T4 + W9) if i < 2 else N_(3), fn="Set::" + op.replace("_borrowed", ""), shape=S)
+            (Q3 + W9) if i < 2 else N_(2), (T4 + N_(9)) if i < 2 else N_(3), fn="Set::" + op.replace("_borrowed", ""), shape=S)
     add("c07_retain_" + sh, "c07::h_set_retain::<%s, {N}>()" % T, ["C07", "C05"], Q3, T3, fn="Set::retain", shape=S)
     add("c07_clear_" + sh, "c07::h_set_clear_drain::<%s, {N}>(false)" % T, ["C07"], Q3, T3, fn="Set::clear", shape=S)
     add("c07_drain_" + sh, "c07::h_set_clear_drain::<%s, {N}>(true)" % T, ["C07", "C10"], Q3, T3, profile="both", fn="Set::drain, SetDrain::next/len", shape=S)
@@ -244,10 +245,10 @@ add("c10_set_into_iter_id", "c10::h_set_into_iter::<Key, {N}>()", ["C10", "C12"]
 for sh, K, V in (("u8", "u8", "u8"), ("id", "Key", "u8")):
     S = "S_" + sh
     for i, op in enumerate(("or_insert", "or_insert_with", "or_insert_with_key", "or_default", "and_modify")):
-        add("c11_%s_%s" % (op, sh), "c11::h_entry_or::<%s, %s, {N}>(%d)" % (K, V, i), ["C11", "C12", "C05"], N_(1, 2) + (N_(9) if sh == "u8" and i in (0, 4) else []), N_(1, 2, 3) + (N_(9) if sh == "u8" else []), profile="both" if i == 0 else "debug",
+        add("c11_%s_%s" % (op, sh), "c11::h_entry_or::<%s, %s, {N}>(%d)" % (K, V, i), ["C11", "C12", "C05"], N_(1, 2) + (N_(9) if sh == "u8" and i in (0, 4) else []), N_(1, 2, 3) + N_(9), profile="both" if i == 0 else "debug",
             fn="Map::entry, Entry::%s" % op, shape=S)
     for i, op in enumerate(("insert", "into_mut_into_key", "remove", "remove_entry")):
-        add("c11_direct_%s_%s" % (op, sh), "c11::h_entry_direct::<%s, %s, {N}>(%d)" % (K, V, i), ["C11", "C12", "C05"], N_(1, 2) + (N_(9) if sh == "u8" and i == 0 else []), N_(1, 2, 3) + (N_(9) if sh == "u8" else []),
+        add("c11_direct_%s_%s" % (op, sh), "c11::h_entry_direct::<%s, %s, {N}>(%d)" % (K, V, i), ["C11", "C12", "C05"], N_(1, 2) + (N_(9) if sh == "u8" and i == 0 else []), N_(1, 2, 3) + N_(9),
             fn="OccupiedEntry::{key,get,get_mut,%s} / VacantEntry::{key,insert,into_key}" % op, shape=S)
 
 # ------------------------------------------------------------------ C14 equality, C15 clone (view)
